@@ -38,3 +38,52 @@ func PhiArm(n *Normer, fn *ssa.Function, phi *ssa.Phi, from *ssa.BasicBlock, scr
 	}
 	return taken, nil
 }
+
+// phiArmFold: like PhiArm for arms that are decided by reading immutable package tables at the
+// scrutinee (v, ok := table[x]): the scrutinee value is substituted, table reads are folded through the
+// literal evaluator, and the chosen arm's value is returned in that same environment.
+func phiArmFold(n *Normer, fn *ssa.Function, phi *ssa.Phi, from *ssa.BasicBlock, scrutRole string, val int64) (int, Poly, error) {
+	var subj []ssa.Value
+	for v, r := range n.Bind {
+		if r == scrutRole {
+			subj = append(subj, v)
+		}
+	}
+	if len(subj) == 0 {
+		return -1, nil, fmt.Errorf("no value carries the role %s", scrutRole)
+	}
+	env := map[ssa.Value]Poly{}
+	for _, v := range subj {
+		delete(n.Bind, v)
+		env[v] = pConst(val)
+	}
+	n.env = append(n.env, env)
+	savedFold := n.FoldTables
+	n.FoldTables = true
+	defer func() {
+		n.FoldTables = savedFold
+		n.env = n.env[:len(n.env)-1]
+		for _, v := range subj {
+			n.Bind[v] = scrutRole
+		}
+	}()
+	taken := -1
+	for i, pred := range phi.Block().Preds {
+		cond := cAnd(n.ReachCond(fn, from, pred), n.EdgeCond(pred, phi.Block()))
+		cv := &condVars{bases: map[string]map[int64]bool{}, bools: map[string]bool{}}
+		collect(cond, cv)
+		if len(cv.bases) > 0 || len(cv.bools) > 0 {
+			return -1, nil, fmt.Errorf("arm %d is not decided by the scrutinee and the tables alone: %s", i, cond)
+		}
+		if evalCond(cond, nil, nil) {
+			if taken >= 0 {
+				return -1, nil, fmt.Errorf("two arms taken for value %d", val)
+			}
+			taken = i
+		}
+	}
+	if taken < 0 {
+		return -1, nil, fmt.Errorf("no arm taken for value %d", val)
+	}
+	return taken, n.Norm(phi.Edges[taken]), nil
+}
